@@ -258,6 +258,44 @@ def campaign(c):
                             c.violation('bind:designation:' + m['path'], 'the values designated for `seq` and `ack` (%#x, %#x) are not the numbers in the segment header (%#x, %#x) when the call also says (%s)' % (S, A, sq, ak, ', '.join(o)), dict(func=m['path'], src=src))
                     c.traces_validated += 1
         c.case(('designation-visible', m['path']), dict(kind='designation-visible', method=m['path'], contexts=len(others)))
+    # a designated value lands in the result as it is, WHATEVER the value: for every integer parameter of every function that returns
+    # bytes, the field the parameter fills is located by calling the function with two neutral values (the results must differ in
+    # exactly one run of bytes, holding the big-endian values); then every value that some constant of the library has (protocol
+    # versions, record types, class codes ...) and the boundary values are passed - the result is the neutral result with that
+    # field holding the value, nothing rewritten, nothing clamped
+    from ..calls import call_both as _cb, val_bytes
+    from .C08 import base_arg, steps_for
+    WIDTH = {'U8': 1, 'U16': 2, 'U32': 4}
+    named_vals = {w: sorted(set(int(x['def']['value']) for x in lib.consts if x['def']['type'] in ('U8', 'U16', 'U32', 'U64') and int(x['def']['value']) < 256 ** w)) for w in (1, 2, 4)}
+    for f in lib.funcs:
+        if f['return_type'] != 'Str' or f['path'] in ('std::be16', 'std::be32', 'std::be64', 'std::le16', 'std::le32', 'std::le64', 'std::u8'): continue
+        base = ['%s=%s' % (a['name'], base_arg(f, a)) for a in f['args'] if a['kind'] == 'pos']
+        for a in f['args']:
+            t = decl_type(a)[0]
+            if t not in WIDTH: continue
+            w = WIDTH[t]
+            A, B = int.from_bytes(b'\x5a\xa5\x3c\xc3'[:w], 'big'), int.from_bytes(b'\xa6\x59\xc2\x3d'[:w], 'big')
+            def call_with(v):
+                args = [x for x in base if not x.startswith(a['name'] + '=')] + ['%s=%s:%d' % (a['name'], t.lower(), v)]
+                steps, idx = steps_for(f, args)
+                res, req = _cb(c, steps, 'value-sweep')
+                return (val_bytes(res[idx]) if idx < len(res) else None), req
+            rA, _ = call_with(A); rB, _ = call_with(B)
+            if rA is None or rB is None or len(rA) != len(rB): continue
+            diff = [k for k in range(len(rA)) if rA[k] != rB[k]]
+            if not diff or diff != list(range(diff[0], diff[0] + len(diff))) or len(diff) > w: continue
+            pos = diff[-1] + 1 - w
+            if pos < 0 or rA[pos:pos + w] != A.to_bytes(w, 'big') or rB[pos:pos + w] != B.to_bytes(w, 'big'): continue
+            vals = sorted(set(named_vals[w] + [0, 1, 256 ** w - 1, 256 ** w - 2, 128, 255, 256 % 256 ** w]))
+            if c.quick and len(vals) > 160: vals = vals[::max(1, len(vals) // 160)] + [v for v in (0x0300, 0x0301, 0x0302, 0x0303, 0x0304) if v < 256 ** w]
+            for v in vals:
+                r_, req = call_with(v)
+                want = rA[:pos] + v.to_bytes(w, 'big') + rA[pos + w:]
+                if r_ != want:
+                    c.violation('bind:designation:' + f['path'], 'the value %#x designated for `%s` is not what the result holds at the place of that parameter (bytes %d..%d): %s' % (v, a['name'], pos, pos + w, r_[pos:pos + w].hex() if r_ else r_), dict(func=f['path'], req=req))
+                    break
+            c.count('value-sweep-fields')
+            c.case(('value-sweep', f['path'], a['name']), dict(kind='value-sweep', func=f['path'], param=a['name'], offset=pos) if hash(f['path'] + a['name']) % 6 == 0 else None)
     # options designated when an object is CREATED are what every later call on it shows: the header options of a fragmentation
     # context (id, evil, df, ttl, proto, each given and omitted) under every kind of request (first / middle / last fragment, tail,
     # whole datagram)
